@@ -45,8 +45,8 @@ theorem cubic_pieces_zero_c14 (N : ℕ) (hN : 0 < N) (T : ℕ → K) (hT : ∀ k
     (hC1 : ∀ k, k + 1 < N → c1 k + 2 * c2 k * T (k+1) + 3 * c3 k * T (k+1) ^ 2
         = c1 (k+1) + 2 * c2 (k+1) * T (k+1) + 3 * c3 (k+1) * T (k+1) ^ 2)
     (hC2 : ∀ k, k + 1 < N → 2 * c2 k + 6 * c3 k * T (k+1) = 2 * c2 (k+1) + 6 * c3 (k+1) * T (k+1))
-    (hN0 : 2 * c2 0 + 6 * c3 0 * T 0 = 0)
-    (hN1 : 2 * c2 (N-1) + 6 * c3 (N-1) * T N = 0) :
+    (hN0 : (c1 0 + 2 * c2 0 * T 0 + 3 * c3 0 * T 0 ^ 2) * (2 * c2 0 + 6 * c3 0 * T 0) = 0)
+    (hN1 : (c1 (N-1) + 2 * c2 (N-1) * T N + 3 * c3 (N-1) * T N ^ 2) * (2 * c2 (N-1) + 6 * c3 (N-1) * T N) = 0) :
     ∀ k < N, c0 k = 0 ∧ c1 k = 0 ∧ c2 k = 0 ∧ c3 k = 0 := by
   -- one-sided products `s'·s''` at the breakpoints
   let g : ℕ → K := fun k =>
@@ -173,11 +173,15 @@ open Finset Polynomial
 namespace Interp
 variable {K : Type} [Field K] [LinearOrder K] [IsStrictOrderedRing K]
 
-/-- **Uniqueness of the natural cubic spline** on every strictly increasing parameter sequence. -/
-theorem natural_unique (a d : K) (mid : List K) (tol : K) (htol : 0 < tol)
+/-- **Uniqueness of the cubic spline with a first- or second-derivative condition at each end**
+(`e0, e1 ∈ {1, 2}`: clamped/complete, natural, or mixed) on every strictly increasing parameter
+sequence: in the energy identity the boundary term `s'·s''` vanishes at an end as soon as ONE of the
+two factors does. -/
+theorem clamped_unique (a d : K) (mid : List K) (tol : K) (htol : 0 < tol)
     (hgap : ∀ i j, i < j → j < mid.length + 2 →
-      (a :: (mid ++ [d])).getD i 0 + tol ≤ (a :: (mid ++ [d])).getD j 0) :
-    NaturalUnique a d mid := by
+      (a :: (mid ++ [d])).getD i 0 + tol ≤ (a :: (mid ++ [d])).getD j 0)
+    (e0 e1 : ℕ) (he0 : e0 = 1 ∨ e0 = 2) (he1 : e1 = 1 ∨ e1 = 2) :
+    ClampedUnique a d mid e0 e1 := by
   intro y Hint Ha Hd
   set b := natBasis a d mid with hb
   set τ := b.kn with hτdef
@@ -274,15 +278,33 @@ theorem natural_unique (a d : K) (mid : List K) (tol : K) (htol : 0 < tol)
         ← sum_dB_eq_piece_c14 .right τ hτ (k + 1 + 3) (mid.length + 4) 2 y (T (k+1)) (hmemR (k+1) (by omega))]
       exact hLR (k+1) (by omega) (by omega) 2 (by omega))
     (by
-      rw [← (cubic_evals_c14 (P 0) (hdeg 0) (T 0)).2.2,
-        ← sum_dB_eq_piece_c14 .right τ hτ (0 + 3) (mid.length + 4) 2 y (T 0) (hmemR 0 (by omega)), hT0]
-      exact Ha)
+      rcases he0 with h | h
+      · have : (P 0).coeff 1 + 2 * (P 0).coeff 2 * T 0 + 3 * (P 0).coeff 3 * T 0 ^ 2 = 0 := by
+          rw [← (cubic_evals_c14 (P 0) (hdeg 0) (T 0)).2.1,
+            ← sum_dB_eq_piece_c14 .right τ hτ (0 + 3) (mid.length + 4) 1 y (T 0) (hmemR 0 (by omega)), hT0]
+          rw [h] at Ha; exact Ha
+        simp only [this, zero_mul]
+      · have : 2 * (P 0).coeff 2 + 6 * (P 0).coeff 3 * T 0 = 0 := by
+          rw [← (cubic_evals_c14 (P 0) (hdeg 0) (T 0)).2.2,
+            ← sum_dB_eq_piece_c14 .right τ hτ (0 + 3) (mid.length + 4) 2 y (T 0) (hmemR 0 (by omega)), hT0]
+          rw [h] at Ha; exact Ha
+        simp only [this, mul_zero])
     (by
-      rw [show mid.length + 1 - 1 = mid.length by omega,
-        ← (cubic_evals_c14 (P mid.length) (hdeg _) (T (mid.length + 1))).2.2,
-        ← sum_dB_eq_piece_c14 .left τ hτ (mid.length + 3) (mid.length + 4) 2 y (T (mid.length + 1))
-          (hmemL mid.length (by omega)), hTN]
-      exact Hd)
+      rw [show mid.length + 1 - 1 = mid.length by omega]
+      rcases he1 with h | h
+      · have : (P mid.length).coeff 1 + 2 * (P mid.length).coeff 2 * T (mid.length + 1)
+            + 3 * (P mid.length).coeff 3 * T (mid.length + 1) ^ 2 = 0 := by
+          rw [← (cubic_evals_c14 (P mid.length) (hdeg _) (T (mid.length + 1))).2.1,
+            ← sum_dB_eq_piece_c14 .left τ hτ (mid.length + 3) (mid.length + 4) 1 y (T (mid.length + 1))
+              (hmemL mid.length (by omega)), hTN]
+          rw [h] at Hd; exact Hd
+        simp only [this, zero_mul]
+      · have : 2 * (P mid.length).coeff 2 + 6 * (P mid.length).coeff 3 * T (mid.length + 1) = 0 := by
+          rw [← (cubic_evals_c14 (P mid.length) (hdeg _) (T (mid.length + 1))).2.2,
+            ← sum_dB_eq_piece_c14 .left τ hτ (mid.length + 3) (mid.length + 4) 2 y (T (mid.length + 1))
+              (hmemL mid.length (by omega)), hTN]
+          rw [h] at Hd; exact Hd
+        simp only [this, mul_zero])
   have hPzero : ∀ k, k ≤ mid.length → P k = 0 := by
     intro k hk
     obtain ⟨z0, z1, z2, z3⟩ := key k (by omega)
@@ -341,6 +363,13 @@ theorem natural_unique (a d : K) (mid : List K) (tol : K) (htol : 0 < tol)
     rw [hz, eval_zero] at this
     rw [← this]
     exact sum_congr rfl (fun j _ => by rw [dB_zero, mul_comm])
+
+/-- Uniqueness of the natural cubic spline. -/
+theorem natural_unique (a d : K) (mid : List K) (tol : K) (htol : 0 < tol)
+    (hgap : ∀ i j, i < j → j < mid.length + 2 →
+      (a :: (mid ++ [d])).getD i 0 + tol ≤ (a :: (mid ++ [d])).getD j 0) :
+    NaturalUnique a d mid :=
+  clamped_unique a d mid tol htol hgap 2 2 (Or.inr rfl) (Or.inr rfl)
 
 end Interp
 end Splipy
